@@ -1,5 +1,5 @@
 """C09 — Sobolev and weighted-L2 indicators (DESIGN 4.C09)."""
-from vlib.core import Check
+from vlib.core import Check, guarded
 from pyvc.driver import verify_contracts, ENGINE_ASSUMPTIONS
 from pyvc import arrays, extio
 from contracts import common, error_estimator
@@ -22,7 +22,7 @@ def run(tier, seed):
     smt.close_pool()
     try:
         from bounded import estimator_rel
-        estimator_rel.run_c09(chk, tier, seed)
+        guarded(chk, 'bounded part estimator_rel.run_c09', estimator_rel.run_c09, chk, tier, seed)
     except ImportError:
         chk.notes.append("bounded relational part for C09 not built yet")
     return chk.finish()
